@@ -130,6 +130,27 @@ func initialStates() []state {
 	add("nested-recursive-chain", ns, T(fr, R("v", i32(1), "next", R("v", i32(2), "next", R("v", i32(3))))))
 	add("nested-recursive-list", ns, T(fr, R("kids", pbref.ListOf(rec.ByName("kids"), R("v", i32(1)), R("v", i32(2)))), fe, pbref.MsgVal(fe.Msg)))
 	add("nested-empty-messages", ns, T(fa, S1(), fe, pbref.MsgVal(fe.Msg), fx, i32(3)))
+	// message-typed / repeated / map fields with numbers >= 64 (added after seed C10-9), and inner containers that
+	// are the last field of their message and are followed by the enclosing message's field of the same number
+	// (added after seed C10-10)
+	{
+		hs := pbref.ProgHigh()
+		node := hs.Root.ByName("n").Msg
+		N := func(kv ...interface{}) *pbref.Val {
+			m := pbref.MsgVal(node)
+			for i := 0; i < len(kv); i += 2 {
+				m.Set(node.ByName(kv[i].(string)), kv[i+1].(*pbref.Val))
+			}
+			return m
+		}
+		H := func(n *pbref.Val) *pbref.Val {
+			return pbref.MsgVal(hs.Root).Set(hs.Root.ByName("lo"), i32(1)).Set(hs.Root.ByName("n"), n)
+		}
+		kids, km := node.ByName("kids"), node.ByName("km")
+		add("high-message-fields", hs, H(N("v", i32(1), "m63", N("v", i32(2), "s", str("a")), "m64", N("v", i32(4), "s", str("b")), "m255", N("v", i32(6), "s", str("c"), "m64", N("v", i32(7))))))
+		add("high-adjacent-lists", hs, H(N("kids", pbref.ListOf(kids, N("kids", pbref.ListOf(kids, N("v", i32(1)))), N("v", i32(2))))))
+		add("high-adjacent-maps", hs, H(N("km", pbref.MapOf(km).Put(str("a"), N("km", pbref.MapOf(km).Put(str("b"), N("v", i32(1))))).Put(str("z"), N("v", i32(2))))))
+	}
 	stateCache = out
 	return out
 }
@@ -221,6 +242,10 @@ func enabledOps(s *pbref.Schema, root *pbref.Val) []pbref.Op {
 		case v.Card == pbref.Repeated:
 			ops = append(ops, pbref.Op{Kind: pbref.OpSet, Path: ext(p, pbref.Step{K: pbref.SIndex, I: len(v.L)}), Val: newElem(f, 1)})
 			ops = append(ops, pbref.Op{Kind: pbref.OpSet, Path: ext(p, pbref.Step{K: pbref.SIndex, I: 1024}), Val: newElem(f, 3)})
+			if len(p) >= 2 {
+				// the same append below a sub-message that is entered by NAME
+				ops = append(ops, pbref.Op{Kind: pbref.OpSet, Path: ext(p, pbref.Step{K: pbref.SIndex, I: len(v.L)}), Val: newElem(f, 1), ByName: true})
+			}
 			ops = append(ops, pbref.Op{Kind: pbref.OpSetMany, Path: p, Many: []pbref.ManyItem{
 				{Step: pbref.Step{K: pbref.SIndex, I: 1024}, Val: newElem(f, 1)},
 				{Step: pbref.Step{K: pbref.SIndex, I: 1024}, Val: newElem(f, 0)}}})
@@ -234,6 +259,20 @@ func enabledOps(s *pbref.Schema, root *pbref.Val) []pbref.Op {
 			k := pbref.AbsentKey(v)
 			if k != nil {
 				ops = append(ops, pbref.Op{Kind: pbref.OpSet, Path: ext(p, pbref.Step{K: pbref.SKey, Key: k}), Val: newElem(f, 1)})
+			}
+			// keys that only an enclosing map of the same field has (recursive messages): absent here
+			for j := 0; j+1 < len(p); j++ {
+				if p[j].K != pbref.SField || p[j].F != f {
+					continue
+				}
+				if outer := pbref.Resolve(root, p[:j+1]); outer != nil && outer.Card == pbref.Map {
+					for _, ok := range outer.MK {
+						if pbref.Child(v, pbref.Step{K: pbref.SKey, Key: ok}) == nil {
+							ops = append(ops, pbref.Op{Kind: pbref.OpSet, Path: ext(p, pbref.Step{K: pbref.SKey, Key: ok}), Val: newElem(f, 1)},
+								pbref.Op{Kind: pbref.OpSet, Path: ext(p, pbref.Step{K: pbref.SKey, Key: ok}), Val: newElem(f, 1), ByName: true})
+						}
+					}
+				}
 			}
 			// SetMany on the map: replace the value of the LAST present key by one of another length, alone, together
 			// with an insertion, and in both request orders
@@ -293,6 +332,19 @@ func enabledOps(s *pbref.Schema, root *pbref.Val) []pbref.Op {
 			}
 			if len(absent) > 0 {
 				items = append(items, pbref.ManyItem{Step: pbref.Step{K: pbref.SField, F: absent[0]}, Val: newElem(absent[0], 1)})
+			}
+			// SetMany replacing the LAST present message-typed field by a smaller message
+			for i := len(v.Fs) - 1; i >= 0; i-- {
+				if fv := v.Fs[i]; fv.V.Card == pbref.Single && fv.V.Kind == pbref.KMessage {
+					repl := oneFieldMsg(fv.V.Msg)
+					if repl == nil || pbref.Equal(repl, fv.V) {
+						repl = pbref.MsgVal(fv.V.Msg)
+					}
+					if !pbref.Equal(repl, fv.V) {
+						ops = append(ops, pbref.Op{Kind: pbref.OpSetMany, Path: p, Many: []pbref.ManyItem{{Step: pbref.Step{K: pbref.SField, F: fv.F}, Val: repl}}})
+					}
+					break
+				}
 			}
 			if len(items) > 0 {
 				ops = append(ops, pbref.Op{Kind: pbref.OpSetMany, Path: p, Many: items})
